@@ -592,6 +592,13 @@ theorem fsClone_seeds {ovl : Bytes → Nat → Nat → Nat → Bytes} {fs fs' : 
       subst h1
       exact (copyInto_seeds ..).trans (copyInto_seeds ..)
 
+/-- the head and tail copies of a refused clone write the target only -/
+theorem fsCloneHeadTail_seeds (ovl : Bytes → Nat → Nat → Nat → Bytes) (fs : FS) (src : Src)
+    (so len dO bs : Nat) : (fsCloneHeadTail ovl fs src so len dO bs).1.seeds = fs.seeds := by
+  unfold fsCloneHeadTail
+  simp only [Gen.fsClone_headCopy, Gen.fsClone_tailCopy]
+  exact (copyInto_seeds ..).trans (copyInto_seeds ..)
+
 theorem FSeg.writeInto_seeds {ovl : Bytes → Nat → Nat → Nat → Bytes} {s : FSeg} {fs fs' : FS}
     {offset length bs c cl : Nat} {fz : Bool} (h : s.writeInto ovl fs offset length bs = .ok fs' c cl fz) :
     fs'.seeds = fs.seeds := by
@@ -603,7 +610,16 @@ theorem FSeg.writeInto_seeds {ovl : Bytes → Nat → Nat → Nat → Bytes} {s 
     · injection h with h1 _ _ _
       subst h1
       exact copyInto_seeds ..
-    · exact fsClone_seeds h
+    · split at h
+      · injection h with h1 _ _ _
+        subst h1
+        exact (copyInto_seeds ..).trans (fsCloneHeadTail_seeds ..)
+      · rename_i hne
+        cases hc : fsClone ovl fs s.src (u s.srcStart).toNat (u length).toNat (u offset).toNat bs with
+        | err => exact absurd hc (hne · )
+        | ok fs'' c' cl' fz' =>
+          rw [hc] at h
+          exact fsClone_seeds (hc.trans h)
 
 theorem nullWriteInto_seeds {fs fs' : FS} {sfrom sto : Nat} {canReflink : Bool}
     {offset length bs : Nat} {isBlank : Bool} {c cl : Nat} {fz : Bool}
